@@ -152,7 +152,9 @@ func check(c Case) *vfrun.Failure {
 				p.Schedule.Next = rev
 			}
 			e := univ.NewExec(p)
+			s.DefaultRecover = c.DefaultRecover
 			resp := s.Do(context.Background(), e, c.Query, c.OpName, c.Variables)
+			s.DefaultRecover = false
 			if e.Unrepresentable > 0 {
 				vfrun.Label("discarded:unrepresentable")
 				return nil
@@ -207,6 +209,11 @@ func gen(t *rapid.T) Case {
 	op := opgen.Generate(t, s.Schema, opgen.Options{Mutation: rapid.IntRange(0, 2).Draw(t, "mutation?") == 0, MaxFields: 20, MaxDepth: 4})
 	c.Query, c.OpName, c.Variables = op.Query, op.OpName, op.Variables
 	c.PlanSeed = rapid.Uint64Range(1, 1<<32).Draw(t, "planseed")
+	// a quarter of the cases keep gqlgen's own recover hook
+	if rapid.IntRange(0, 3).Draw(t, "defaultrecover") == 0 {
+		c.DefaultRecover = true
+		vfrun.Label("default-recover-hook")
+	}
 	c.SchedSeed = rapid.Uint64Range(1, 1<<32).Draw(t, "schedseed")
 	pr, f := kit.Prepare(s, c.Case)
 	if f != nil {
@@ -315,6 +322,11 @@ func genStorm(t *rapid.T) Case {
 	s := srvs[0]
 	c.Query = rapid.SampledFrom(stormQueries).Draw(t, "stormquery")
 	c.PlanSeed = rapid.Uint64Range(1, 1<<32).Draw(t, "planseed")
+	// a quarter of the cases keep gqlgen's own recover hook
+	if rapid.IntRange(0, 3).Draw(t, "defaultrecover") == 0 {
+		c.DefaultRecover = true
+		vfrun.Label("default-recover-hook")
+	}
 	c.SchedSeed = rapid.Uint64Range(1, 1<<32).Draw(t, "schedseed")
 	pr, f := kit.Prepare(s, c.Case)
 	if f != nil {
@@ -370,6 +382,11 @@ func genTwin(t *rapid.T) Case {
 	s := srvs[0]
 	c.Query = rapid.SampledFrom(twinQueries).Draw(t, "twinquery")
 	c.PlanSeed = rapid.Uint64Range(1, 1<<32).Draw(t, "planseed")
+	// a quarter of the cases keep gqlgen's own recover hook
+	if rapid.IntRange(0, 3).Draw(t, "defaultrecover") == 0 {
+		c.DefaultRecover = true
+		vfrun.Label("default-recover-hook")
+	}
 	c.SchedSeed = rapid.Uint64Range(1, 1<<32).Draw(t, "schedseed")
 	pr, f := kit.Prepare(s, c.Case)
 	if f != nil {
